@@ -157,6 +157,8 @@ def match_known(prop, sig, known):
         pat = k.get("sig")
         if pat is not None and pat == sig:
             return k
+        if sig in (k.get("sigs") or ()):
+            return k
         rx = k.get("sig_regex")
         if rx is not None and re.fullmatch(rx, sig):
             return k
